@@ -17,7 +17,9 @@ class C08(Spec):
     rule = ("pmap: scripts of add/get/rehash with chosen hashes on the real _ProgramMap (non-trivial: at least one rehash or a probe "
             "collision); pcrace: goroutines racing Get/Compute on one real ProgramCache, final table judged by the model's invariant "
             "(non-trivial: >= 2 goroutines); rcu: goroutines racing the first use of never-seen reflect.StructOf types through "
-            "Marshal/Unmarshal/Pretouch/Get/Valid, compared with the same call alone and encoding/json; race streams run in the -race build")
+            "Marshal/Unmarshal/Pretouch/Get/Valid, compared with the same call alone and encoding/json; pool: goroutines racing Marshal/"
+            "MarshalIndent/Unmarshal of recognisable payloads after calls that return pooled buffers through the EscapeHTML/ValidateString "
+            "post-passes, error exits and user buffers, every result compared with the same call alone; race streams run in the -race build")
     trusted_base = ["Go memory model, sync.Mutex, sync/atomic, sync.Pool, the race detector (used as validation, not as proof)",
                     "the interleaving model's atomic steps = one atomic load/store/lock/unlock or a pure computation on private data "
                     "(the accesses to ProgramCache.p are atomic.LoadPointer/StorePointer in pcache.go)",
@@ -39,7 +41,9 @@ class C08(Spec):
             Stream("pcrace-big", "c08.pcbig", 1 if q else 6, timeout=120.0),
             Stream("pcrace-race", "c08.pcrace", 20 if q else 300, envs=RACE_ENV, timeout=30.0, race=True),
             Stream("rcu", "c08.rcu", 20 if q else 300, timeout=30.0, use_model=False),
-            Stream("rcu-race", "c08.rcu", 8 if q else 80, envs=RACE_ENV, timeout=120.0, use_model=False, race=True),
+            Stream("rcu-race", "c08.rcu", 5 if q else 80, envs=RACE_ENV, timeout=120.0, use_model=False, race=True),
+            Stream("pool", "c08.pool", 6 if q else 200, timeout=30.0, use_model=False),
+            Stream("pool-race", "c08.poolsmall", 2 if q else 60, envs=RACE_ENV, timeout=120.0, use_model=False, race=True),
         ]
 
     def extra(self, ctx):
@@ -128,6 +132,11 @@ class C08(Spec):
                     out.append(("pcache-race-wrong-result", "%s: %s maxcompiles=%s" % (env, v, s.get("maxcompiles"))))
                 elif m.get("model") not in (None, "ok", "unsupported"):
                     out.append(("pcache-invariant-broken", "%s: %s" % (env, m.get("model"))))
+            elif case[0] == "pool":
+                if v != s.get("seq"):
+                    out.append(("concurrent-differs-from-alone", "%s: pooled buffers/stacks: %s" % (env, s.get("bad", "")[:400])))
+                elif v != s.get("ref"):
+                    out.append(("tie:pool-vs-encoding/json", "%s: %s" % (env, s.get("badref", "")[:400])))
             elif case[0] == "rcu":
                 if v == "unsupported":
                     continue
@@ -148,6 +157,8 @@ class C08(Spec):
                 if len(masks) > 1:
                     return True
             return False
+        if case[0] == "pool":
+            return int(case[2]) >= 2
         if case[0] in ("pcrace", "rcu"):
             return int(case[2]) >= 2 if case[0] == "pcrace" else int(case[3]) >= 2
         return False
